@@ -180,6 +180,8 @@ def _dataset_case(args):
     y = np.round(rs.uniform(0.01, 0.2, n), 4)
     x[2] = np.nan
     y[5] = np.inf
+    x[7] = -5.0          # invalid only on the log scale
+    y[9] = 0.0
     ds = dclab.new_dataset({"area_um": x, "deform": y})
     where = "dclab.rtdc_dataset.core:RTDCBase.get_downsampled_scatter"
     masks = [np.ones(n, bool), np.arange(n) % 2 == 0, np.arange(n) > 7]
@@ -199,6 +201,9 @@ def _dataset_case(args):
                               xscale=scale, yscale=scale, remove_invalid=rem,
                               ret_mask=True)
                     xs, ys = x[sel], y[sel]
+                    if scale == "log":
+                        with np.errstate(all="ignore"):
+                            xs, ys = np.log(xs), np.log(ys)
                     nv = int((np.isfinite(xs) & np.isfinite(ys)).sum())
                     tags = {"func": "get_downsampled_scatter",
                             "remove_invalid": rem,
@@ -250,6 +255,36 @@ def _dataset_case(args):
             if not np.array_equal(got, ds.filter.all):
                 out.append(violation(fw, "not-reproducible", case, "",
                                      {"func": "limit events"}))
+    # the same limit with successive selections of equal size: the choice
+    # must follow the current selection, not an earlier one
+    same = [np.arange(n) % 2 == 0, np.arange(n) % 2 == 1,
+            np.arange(n) < n // 2, np.arange(n) >= n // 2,
+            np.arange(n) % 2 == 0]
+    for lim in range(1, n // 2 + 2):
+        ds.config["filtering"]["limit events"] = lim
+        for mi, m in enumerate(same):
+            ds.filter.manual[:] = m
+            ds.apply_filter()
+            got = np.array(ds.filter.all)
+            cnt += 1
+            q = int(m.sum())
+            expect = lim if 0 < lim < q else q
+            case = {"kind": "limit-history", "seed": seed, "mask": mi,
+                    "limit": lim}
+            if int(got.sum()) != expect or (got & ~m).any():
+                out.append(violation(
+                    fw, "wrong-count", case,
+                    f"limit {lim} after {mi} earlier selections of the same "
+                    f"size: {np.flatnonzero(got).tolist()} selected, "
+                    f"qualifying {np.flatnonzero(m).tolist()}",
+                    {"func": "limit events", "history": True}))
+            r = _call(ds.get_downsampled_scatter, downsample=0,
+                      ret_mask=True)
+            if isinstance(r, BaseException) or (r[2] & ~m).any():
+                out.append(violation(
+                    where, "mask-outside-filter", case, f"{r}",
+                    {"func": "get_downsampled_scatter", "history": True}))
+    ds.config["filtering"]["limit events"] = 0
     return cnt, out
 
 
